@@ -171,6 +171,42 @@ class FakePool:
         self.sim.note("imap_unordered", self.pid, job.jid, len(items))
         return _IMapUnorderedIterator(self, job)
 
+    def map_async(self, func, iterable, chunksize: int | None = None, callback=None, error_callback=None):
+        self._check_running()
+        items = list(iterable)
+        if chunksize is None:
+            chunksize, extra = divmod(len(items), self.n * 4)
+            if extra:
+                chunksize += 1
+        if len(items) == 0:
+            chunksize = 1
+        chunks = [items[i : i + chunksize] for i in range(0, len(items), chunksize)]
+        job = _Job(self, "map", len(chunks), chunksize)
+        job.value = [None] * len(items)
+        clock = self.sim.hb_send()
+        for idx, chunk in enumerate(chunks):
+            self.taskq.append((job, idx, pickle.dumps((func, tuple(chunk))), clock))
+        self.sim.note("map_async", self.pid, job.jid, len(chunks))
+        return _MapAsyncResult(self, job)
+
+    def apply_async(self, func, args=(), kwds=None, callback=None, error_callback=None):
+        self._check_running()
+        import functools
+
+        job = _Job(self, "map", 1, 1)
+        job.value = [None]
+        call = functools.partial(_apply_star, func, tuple(args), dict(kwds or {}))
+        self.taskq.append((job, 0, pickle.dumps((call, (None,))), self.sim.hb_send()))
+        self.sim.note("apply_async", self.pid, job.jid)
+        return _MapAsyncResult(self, job, single=True)
+
+    def apply(self, func, args=(), kwds=None):
+        return self.apply_async(func, args, kwds).get()
+
+    def imap(self, func, iterable, chunksize: int = 1):
+        res = self.map_async(func, iterable, chunksize)
+        return iter(res.get())
+
     def map(self, func, iterable, chunksize: int | None = None):
         self._check_running()
         items = list(iterable)
@@ -201,6 +237,34 @@ class FakePool:
         raise job.value
 
 
+class _MapAsyncResult:
+    """multiprocessing.pool.MapResult / ApplyResult: wait() does not re-raise,
+    get() does."""
+
+    def __init__(self, pool: "FakePool", job: _Job, single: bool = False) -> None:
+        self.pool, self.job, self.single = pool, job, single
+
+    def ready(self) -> bool:
+        return self.job.number_left == 0
+
+    def successful(self) -> bool:
+        if not self.ready():
+            raise ValueError("result is not ready")
+        return self.job.success
+
+    def wait(self, timeout=None) -> None:
+        sim = self.pool.sim
+        sim.sched_point(("map_async.wait", self.pool.pid, self.job.jid), cond=lambda: self.job.number_left == 0)
+        for c in self.job.clocks:
+            sim.hb_recv(c)
+
+    def get(self, timeout=None):
+        self.wait()
+        if self.job.success:
+            return self.job.value[0] if self.single else self.job.value
+        raise self.job.value
+
+
 class _IMapUnorderedIterator:
     def __init__(self, pool: FakePool, job: _Job) -> None:
         self.pool, self.job = pool, job
@@ -225,6 +289,10 @@ class _IMapUnorderedIterator:
         raise value
 
     next = __next__
+
+
+def _apply_star(func, args, kwds, _ignored):
+    return func(*args, **kwds)
 
 
 class FakeQueue:
@@ -373,7 +441,11 @@ class FakeProcess:
 
     @property
     def exitcode(self):
-        if self.task is None or not self.task.done:
+        if self.task is None:
+            return None
+        if self.task.state == "killed":
+            return -9  # died from a signal
+        if not self.task.done:
             return None
         return 1 if self.task.exc is not None else 0
 
